@@ -7,6 +7,15 @@ TRUSTED_COMMON = [
 ]
 
 PROPS = {
+    "C17": {
+        "title": "A node that is not babbling changes nothing; a suspended node still serves syncs",
+        "design_ref": "DESIGN.md §3 C17",
+        "technique": "Lean 4 proof about the RPC gate expression and the suspension rule regenerated from the Go AST + differential correspondence on real Node objects in every state",
+        "level_text": "Proof (Lean 4): for the gate expression regenerated from processRPC a command is handled iff the node is Babbling or (Suspended and the command is a SyncRequest) (gated); mutating requests are refused in every non-babbling state, every request in CatchingUp/Joining/Leaving/Shutdown; the regenerated suspension rule fires iff undetermined-since-start > limit x validators or the node was removed and the last consensus round reached the removal round (suspend_rule). Tied to the code by driving real Node objects (inmem transport) through processRPC in every state and checkSuspend on nodes without quorum / removed validators, comparing with the model; refused requests and submissions must leave the DAG digest unchanged; suspended sync answers are compared with the exact difference. PARTIAL: overshoot of the threshold by concurrently running gossip goroutines is runtime.",
+        "level_note": "Trusted: Lean kernel; extractor (gate expression, the four comparison operators and the shape of checkSuspend).",
+        "trusted_base": ["the handlers behind the gate are exercised by the harness, not modelled (their effect on a non-babbling node is observed through a digest of known events, head, blocks, pools)"],
+        "assumptions": [],
+    },
     "C12": {
         "title": "Fast-sync acceptance",
         "design_ref": "DESIGN.md §3 C12",
